@@ -79,7 +79,8 @@ def main():
     ap.add_argument('--keep', action='store_true')
     ap.add_argument('-j', type=int, default=8)
     args = ap.parse_args()
-    cases = [c for c in load_cases() if args.k in c['id'] or args.k == c['prop']]
+    import re as _re
+    cases = [c for c in load_cases() if args.k in c['id'] or args.k == c['prop'] or (('|' in args.k) and _re.search(args.k, c['id']))]
     bad = 0
     from concurrent.futures import ThreadPoolExecutor
     with ThreadPoolExecutor(max_workers=max(1, args.j)) as ex:
